@@ -37,7 +37,7 @@ def hist(tag, ops, quick=150, thorough=1500, cover=None):
 
 
 PROPS = {
-    "C01": {"lean": ["QF.Props.C01"],
+    "C01": {"lean": ["QF.Props.C01", "QF.Props.C01Ops"],
             "sections": [dict(hist("hist", ["apply", "copy", "rownums", "eval", "sort"], quick=250), cover_ops=None)],
             "rule": "every step of every generated history re-observes all earlier family members (digest of the full observation); "
                     "evaluations = observations compared; non-trivial = successful operation on a result with >= 2 rows; distinct by (operation, result)"},
@@ -55,7 +55,7 @@ PROPS = {
             "sections": [{"section": "hist", "tag": "hist-wit", "opt": "wit=1", "quick": 1, "thorough": 1, "cover_ops": {"fapply"}},
                          hist("hist", ["apply", "fapply", "rownums"])]},
     "C07": {"lean": ["QF.Props.C07", "QF.Props.C06"], "extra_ns": ["QF.Props.C06"], "sections": [hist("hist", ["eval"])]},
-    "C08": {"lean": ["QF.Props.C08"],
+    "C08": {"lean": ["QF.Props.C08", "QF.Props.C08Project"],
             "sections": [hist("hist", ["select", "drop", "slice", "copy"], cover=["new", "select", "drop", "slice", "copy"]),
                          {"section": "hist", "tag": "hist-new", "opt": "newonly=1", "quick": 150, "thorough": 1500, "cover_ops": {"new"}}]},
     "C09": {"lean": ["QF.Props.C09", "QF.Props.C09Equals", "QF.Props.C06"], "extra_ns": ["QF.Props.C06"],
@@ -108,7 +108,7 @@ PROPS = {
                          {"section": "csvraw", "tag": "csvrawfaults", "opt": "faults=1", "quick": 60, "thorough": 600, "cover_ops": {"C"}},
                          {"section": "csvread", "tag": "csvreadfaults", "opt": "faults=1", "quick": 400, "thorough": 4000, "cover_ops": {"CV"}}],
             "rule": "cases = (document, schedule, failing call number); csvraw enumerates EVERY call number of the chosen schedule per document; distinct by transcript line"},
-    "C10": {"lean": ["QF.Props.C10", "QF.Props.C06"], "extra_ns": ["QF.Props.C06"], "sections": [dict(hist("hist", []), cover_ops=None)]},
+    "C10": {"lean": ["QF.Props.C10", "QF.Props.C06", "QF.Props.C06Apply", "QF.Props.C08Project"], "extra_ns": ["QF.Props.C06", "QF.Props.C08"], "sections": [dict(hist("hist", []), cover_ops=None)]},
 }
 
 NOT_APPLICABLE = {}
